@@ -10,8 +10,10 @@ Correspondence (hook driver `grep.*` ops vs model driver `drv_grep`):
   fragment             the Python reading of the theorems' side conditions == the Lean one
   emit                 rows decoded from the real binary == rows of the model's `emit`
 Direct oracle (no model involved in the judgement):
-  * text lines inside the proved fragments (A numbered+extension, B unnumbered+extension,
-    C extension-less) and every coloured line: the real parser returns the generator's record;
+  * text lines inside the proved fragments (A numbered+extension 1-10, B unnumbered+extension 1-6 without
+    blanks, B2 unnumbered+extension 1-10 / blanks in the path, C extension-less) and every coloured line:
+    the real parser returns the generator's record; the fragments are stated with the *documented*
+    extension lengths (DOC_EXT_*), never with what the source currently says;
   * valid spans: `make_style_sections` sections concatenate to the code, match sections are the
     spans; leading-tab lines: shifted spans select the same text;
   * generated grep result streams through the real `delta` (both `--grep-output-type`s; plain /
@@ -36,8 +38,13 @@ ESC = "\x1b"
 # Grep.fragNumbered / fragUnnumbered / fragNoExt through the `fragment` correspondence)
 
 EXT = r"[^. :=\-]"
+# The extension lengths the property documents for plain-text lines (Grep.docExtMin / docExtMax /
+# docExtMaxNoSpaces; theorem C16.ext_bounds_documented ties the source to them). Fixed numbers on purpose:
+# the oracle promises what the property says, not what make_grep_line_regex currently accepts.
+DOC_EXT_MIN, DOC_EXT_MAX, DOC_EXT_MAX_NOSPACES = 1, 10, 6
 NUM_LOOKALIKE = re.compile(r"\.%s{1,10}([:=\-])[0-9]+\1" % EXT, re.S)
 SEP_LOOKALIKE = re.compile(r"\.%s{1,10}[:=\-]" % EXT, re.S)
+SEP_LOOKALIKE_SHORT = re.compile(r"\.%s{1,6}[:=\-]" % EXT, re.S)
 
 
 def _ext_run_ok(s, m):
@@ -90,8 +97,14 @@ def fmt_plain(kind, path, digits, code):
     return path + s + ((digits + s) if digits is not None else "") + code
 
 
+def ext_len(path):
+    """Length of the extension of a path (0 = none)."""
+    i = path.rfind(".")
+    return len(path) - i - 1 if i >= 0 else 0
+
+
 def fragment(kind, path, digits, code):
-    """Which theorem covers the record: 'A', 'B', 'C' or '-' (same order as the driver)."""
+    """Which theorem covers the record: 'A', 'B', 'B2', 'C' or '-' (same order as the driver)."""
     if kind not in KINDS or "\n" in code:
         return "-"
     s = KINDS[kind]
@@ -104,6 +117,12 @@ def fragment(kind, path, digits, code):
                 and not NUM_LOOKALIKE.search(fmt_plain(kind, path, digits, code))
                 and not SEP_LOOKALIKE.search(code) and not starts_with_num(s, code)):
             return "B"
+        # B2: extension of up to 10 characters, blanks allowed in the path (third regex)
+        if (ext_path_ok(path) and ":" not in path
+                and not NUM_LOOKALIKE.search(fmt_plain(kind, path, digits, code))
+                and not SEP_LOOKALIKE.search(code) and not starts_with_num(s, code)
+                and not SEP_LOOKALIKE_SHORT.search(path.split(" ")[0])):
+            return "B2"
     if (no_sep_path_ok(path) and not re.search(r"[:=\-.]", path) and not SEP_LOOKALIKE.search(code)):
         if digits is not None:
             if digits_ok(digits):
@@ -124,7 +143,48 @@ WORDS = ["foo", "bar", "fn", "let", "x", "=", "==", "-", "--", "->", ":", "::", 
          "12:", "7-", "007", "(", ")", "{", "}", "é", "日本", "use", "crate::x", "foo.bar", "foo.bar-baz", "README.md:", "3", "|", ".", "\t", "  ", "#"]
 
 
+# Paths over the whole fragment the property documents for plain-text lines: every extension length 1..10
+# (11 = just outside), dashes / '=' / dots / blanks / digits in directories and file names.
+DOC_DIRS = ["src", "config", "docs", "deploy/k8s-v2", "my dir", "a-b", "x=y", "v2", "etc/app.d", "co-7-fig", "日本",
+            "web service", "a.b.c", "r-1", "release notes", "node_modules/@types", "1-2-3", "k=v/w", "t.d", "é-è"]
+DOC_STEMS = ["main", "app-dev", "getting-started", "web service", "t=1", "a.b", "x-1-y", "index", "é", "release notes-2",
+             "k8s-v2", ".env", "Cargo", "my-file", "a b-c", "x=y=z", "2024-01-02", "v1.2", "日本語", "q"]
+REAL_EXTS = {1: ["c", "h", "d"], 2: ["rs", "py", "md"], 3: ["txt", "xml", "cpp"], 4: ["toml", "json", "yaml"],
+             5: ["patch", "swift", "scala"], 6: ["config", "groovy", "svelte"], 7: ["graphql", "gemspec", "jsonnet"],
+             8: ["markdown", "template", "manifest"], 9: ["gitignore", "xcprivacy", "tfbackend"],
+             10: ["properties", "storyboard", "gitmodules"], 11: ["webmanifest", "xcworkspace", "entitlement"]}
+EXT_ALPHA = "abcdefghijklmnopqrstuvwxyzABCXYZ0123456789_+~é"
+
+
+def gen_ext(rng, n):
+    """An extension of exactly n characters of the class [^. :=-]."""
+    if rng.random() < 0.6:
+        return rng.choice(REAL_EXTS[n])
+    return "".join(rng.choice(EXT_ALPHA) for _ in range(n))
+
+
+def gen_doc_path(rng, n=None):
+    """Directory parts and a stem with dashes, '=', dots, blanks, and an extension of n (default 1..11) characters."""
+    n = n or rng.randint(1, 11)
+    parts = [rng.choice(DOC_DIRS) for _ in range(rng.choice([0, 1, 1, 1, 2]))]
+    return "/".join(parts + [rng.choice(DOC_STEMS) + "." + gen_ext(rng, n)])
+
+
+def doc_path_class(path):
+    """Input class of a documented-fragment path, for signatures and counts."""
+    n = ext_len(path)
+    cls = ["ext-len-1-6" if n <= DOC_EXT_MAX_NOSPACES else ("ext-len-7-10" if n <= DOC_EXT_MAX else "ext-len-11+")]
+    if " " in path:
+        cls.append("blank-in-path")
+    if re.search(r"[=\-]", path):
+        cls.append("dash-in-path")
+    return "+".join(cls)
+
+
 def gen_path(rng):
+    k = rng.random()
+    if k < 0.3:
+        return gen_doc_path(rng)
     k = rng.random()
     if k < 0.25:
         base = rng.choice(NOEXT)
@@ -542,11 +602,12 @@ def long_filler(rng, n):
     return ", ".join(out)
 
 
-def gen_stream(rng, flavour=None, probe=None, allow_funchdr=True, long_len=0):
+def gen_stream(rng, flavour=None, probe=None, allow_funchdr=True, long_len=0, path_gen=None, numbered=None):
     """A grep result stream: dict(flavour, guess, numbered, lines=[str], hits=[dict|None per line]).
     long_len > 0: some records (match, context, and for rg --json also begin/end via a long path) exceed it."""
     flavour = flavour or rng.choice(["plain", "plain", "gitcolour", "rgcolour", "json", "json"])
-    numbered = rng.random() < 0.65 or flavour == "json" and rng.random() < 0.8
+    if numbered is None:
+        numbered = rng.random() < 0.65 or flavour == "json" and rng.random() < 0.8
     context = rng.random() < 0.5 or (long_len > 0 and flavour == "json")
     funchdr = allow_funchdr and flavour in ("plain", "gitcolour") and rng.random() < 0.3 and numbered
     wflag = funchdr and rng.random() < 0.4
@@ -562,7 +623,7 @@ def gen_stream(rng, flavour=None, probe=None, allow_funchdr=True, long_len=0):
     paths = []
     for _ in range(npaths):
         for _try in range(30):
-            p = gen_path(rng)
+            p = (path_gen or gen_path)(rng)
             if flavour in ("plain", "rgcolour") and rng.random() < 0.9 and fragment("context", p, "5" if numbered else None, "x") == "-":
                 continue
             if p not in paths[-1:]:
@@ -722,6 +783,16 @@ def parse_resp(r):
     return dict(gtype=f[2], kind=f[3], path=unhxs(f[4]), num=None if f[5] == "-" else int(f[5]), code=unhxs(f[6]), subs=subs)
 
 
+def misparse_signature(fp, path):
+    """`misparse:plain:fragment-<A|B|B2|C>`; for B2 the input class is named too (what keeps the line from
+    the second regex: a long extension, a blank or a `|` in the path)."""
+    sig = "misparse:plain:fragment-" + fp
+    if fp == "B2":
+        sig += ":unnumbered:" + ("ext-len-7-10" if ext_len(path) > DOC_EXT_MAX_NOSPACES else
+                                 ("blank-in-path" if " " in path else "bar-in-path"))
+    return sig
+
+
 def num_of(digits):
     if digits is None:
         return None
@@ -732,7 +803,9 @@ def num_of(digits):
 def run(ctx, rep):
     rng = ctx.rng
     rep.rule = ("lines: generated grep records (paths with dashes, digits, dots, spaces, non-ASCII; codes with separator/"
-                "number/extension look-alikes) formatted plain / git-coloured / rg --json, their 1-3 character mutations, and "
+                "number/extension look-alikes; 30% of the paths and a systematic family drawn over the documented plain-text "
+                "fragment: extension lengths 1..10 and 11, with/without line number, all three separators, dashes/'='/dots/"
+                "blanks in directories and names) formatted plain / git-coloured / rg --json, their 1-3 character mutations, and "
                 "random strings over `a.:-=1 |`…; non-trivial = at least one regex matches (or the JSON deserialises); "
                 "streams: 1-4 paths x 1-5 hits with numbers/context/`--`/function headers; non-trivial = >= 2 hits and a path "
                 "change or a separator; distinct by input text + options")
@@ -818,7 +891,7 @@ def run(ctx, rep):
             if fp != "-":
                 rep.count("oracle:plain-round-trip:" + fp)
                 if got != want:
-                    sig = "misparse:plain:fragment-" + fp
+                    sig = misparse_signature(fp, path)
                     rep.violation(sig, f"text grep line inside proved fragment {fp} is not read back: {line!r} -> {got}",
                                   dict(kind="line", op="grep.parse", caller="git grep -n foo", line=line, want=want, got=got))
             elif got != want:
@@ -842,6 +915,51 @@ def run(ctx, rep):
                 if got != want:
                     rep.violation("misparse:coloured", f"coloured grep line is not read back: {line!r} -> {got}",
                                   dict(kind="line", op="grep.parse_raw", caller="git grep -n foo", line=line, want=want, got=got))
+    # ---- 1b. the documented fragment of plain-text lines, systematically: every extension length 1..10 (and 11,
+    #          just outside) x with / without line number x match / context / function-header separator, over
+    #          paths with dashes, '=', dots, digits and blanks in directories and names. Inside a fragment the
+    #          real parse_grep_line must return the record (path, number, code); the model is asked too.
+    fam = []
+    for n in range(1, 12):
+        for kind in ("match", "context", "contextheader"):
+            for numbered in (False, True):
+                for _ in range(ctx.n(3, 60)):
+                    for _try in range(25):
+                        path = gen_doc_path(rng, n)
+                        code = gen_code(rng, 4)
+                        digits = str(rng.choice([1, 2, 7, 10, 12, 57, 100, 214, 1090, 99999])) if numbered else None
+                        if "\n" not in code and (n > DOC_EXT_MAX or fragment(kind, path, digits, code) != "-"):
+                            break
+                    if "\n" not in code:
+                        fam.append((kind, path, digits, code))
+    fam_lines = [fmt_plain(*r) for r in fam]
+    fam_impl = ctx.hook(extra_env={"DELTA_VERIF_HOOK_CALLER": "git grep foo"}).ask([f"grep.parse {hx(l)}" for l in fam_lines])
+    fam_model = (mdl.ask([f"grep.parse {hx(l)}" for l in fam_lines] +
+                         [f"grep.fragment {r[0]} {hx(r[1])} {'-' if r[2] is None else hx(r[2])} {hx(r[3])}" for r in fam])
+                 if have_model else [None] * (2 * len(fam)))
+    for k, (r, line, i) in enumerate(zip(fam, fam_lines, fam_impl)):
+        kind, path, digits, code = r
+        m, fm = fam_model[k], fam_model[len(fam) + k]
+        fp = fragment(*r)
+        cls = doc_path_class(path)
+        rep.case(key=("line", line), nontrivial=i.startswith("ok some"), sample=None)
+        rep.count("doc-family:%s:%s:%s" % ("numbered" if digits is not None else "unnumbered", cls.split("+")[0], fp))
+        if m is not None:
+            rep.corr_case("grep.parse", same(i, m), dict(line=line, req="grep.parse", impl=i, model=m, family="documented-fragment"))
+            fmf = fm.split(" ")
+            rep.corr_case("fragment", fmf[1] == fp and unhxs(fmf[3]) == line, dict(record=r, model=fmf, python=fp))
+            if fmf[1] != "-" and fmf[2] != "1":
+                rep.corr_case("fragment-model-round-trip", False, dict(record=r, model=fmf))
+        if fp == "-":
+            continue
+        want = dict(gtype="classic", kind=kind, path=path, num=num_of(digits), code=code, subs=None)
+        got = parse_resp(i)
+        rep.count("oracle:plain-round-trip:" + fp)
+        if got != want:
+            rep.violation(misparse_signature(fp, path),
+                          f"text grep line inside proved fragment {fp} ({cls}) is not read back: {line!r} -> {got}",
+                          dict(kind="line", op="grep.parse", caller="git grep foo", line=line, want=want, got=got))
+
     # non-grep caller: nothing is parsed as text grep output
     sample = [c[0] for c in cases if not c[0].startswith("{")][: ctx.n(200, 3000)]
     got = ctx.hook(extra_env={"DELTA_VERIF_HOOK_CALLER": "git diff"}).ask([f"grep.parse {hx(l)}" for l in sample] + [f"grep.parse_raw {hx(l)}" for l in sample])
@@ -962,6 +1080,14 @@ def run(ctx, rep):
         st = gen_stream(rng, flavour=flavour, allow_funchdr=variant["full_header"], long_len=long_len)
         st["variant"], st["mll"] = variant["name"], mll
         streams.append(st)
+    # plain-text streams over the documented path fragment (long extensions, blanks, dashes), mostly without
+    # line numbers: the rows must show path / number / code of every hit
+    for si in range(ctx.n(16, 400)):
+        n = rng.choice([7, 8, 9, 10, 10, rng.randint(1, 10)])
+        st = gen_stream(rng, flavour="plain", allow_funchdr=False, path_gen=lambda r, n=n: gen_doc_path(r, n),
+                        numbered=rng.random() < 0.3)
+        st["variant"], st["mll"] = "base", None
+        streams.append(st)
     run_streams(ctx, rep, streams, mdl if have_model else None)
 
     # ---- 5. probes for the defect classes found while building this check (each is outside what
@@ -1026,6 +1152,10 @@ def run_streams(ctx, rep, streams, mdl):
         a = ans[a0:a0 + n]
         ai = 0
         fields = []
+        if any(line_truncated(st, k) for k in range(len(st["lines"]))):
+            # delta works on the truncated line; the model has no truncation (also when no line of the
+            # stream is read as grep output: the rows are then the truncated lines passed through)
+            emit_skipped.add(si)
         for ln in st["lines"]:
             if ln.startswith(ESC) and not ln.startswith("{"):
                 r0, r1 = parse_resp(a[ai]), parse_resp(a[ai + 1])
@@ -1048,9 +1178,6 @@ def run_streams(ctx, rep, streams, mdl):
                 pok = stripped.startswith(pre) and stripped[len(pre):] == r["code"] and ("\t" not in r["path"] or tabw_s in (0, 1))
             else:
                 pok = True
-            if any(line_truncated(st, k) for k in range(len(st["lines"]))):
-                # delta works on the truncated line; the model has no truncation
-                emit_skipped.add(si)
             if r["kind"] == "contextheader" and not VARIANT_OF[st.get("variant", "base")]["full_header"]:
                 # (an ambiguous line read as a `=` line:) its classic rendering follows --hunk-header-style,
                 # which in this variant shows neither file nor number; the row decoder cannot tell it from raw text
